@@ -7,6 +7,12 @@ from .interp import Raised
 from .core import Unsupported
 
 CASES = {
+ "property setter validates": "class P:\n    _v = 0\n    @property\n    def v(self):\n        return self._v\n    @v.setter\n    def v(self, x):\n        if x > 10:\n            raise ValueError('big')\n        self._v = x\ndef f(a, b):\n    p = P()\n    p.v = 3\n    p.v += 4\n    out = [p.v, p._v, 'v' in p.__dict__]\n    try:\n        p.v += 9\n    except ValueError as e:\n        out.append(str(e))\n    return out, p.v\n",
+ "property() assignment form": "class P:\n    def __init__(self):\n        self._v = 1\n    def _g(self):\n        return self._v * 2\n    def _s(self, x):\n        self._v = x + 1\n    v = property(_g, _s)\ndef f(a, b):\n    p = P()\n    p.v = 5\n    return p.v, p._v\n",
+ "read-only property assignment": "class P:\n    @property\n    def v(self):\n        return 1\ndef f(a, b):\n    p = P()\n    try:\n        p.v = 2\n    except AttributeError:\n        return 'ro', p.v\n    return 'set', p.v\n",
+ "setter inherited, data descriptor beats instance dict": "class B:\n    @property\n    def v(self):\n        return self.__dict__.get('_v', 7)\n    @v.setter\n    def v(self, x):\n        self.__dict__['_v'] = x * 2\nclass C(B):\n    pass\ndef f(a, b):\n    c = C()\n    r0 = c.v\n    c.v = 4\n    return r0, c.v\n",
+ "dataclass field(compare=False) / init=False": "from dataclasses import dataclass, field\n@dataclass\nclass P:\n    a: int\n    note: str = field(default='', compare=False)\n    n: int = field(default=7, init=False)\n    tags: list = field(default_factory=list)\ndef f(a, b):\n    x, y = P(1, 'x'), P(1, 'y')\n    out = [x == y, P(1) == P(2), x.n, x.tags is y.tags]\n    try:\n        P(1, 'x', 3, [])\n    except TypeError:\n        out.append('TypeError')\n    return out\n",
+ "dataclass(eq=False) compares by identity": "from dataclasses import dataclass\n@dataclass(eq=False)\nclass P:\n    a: int\ndef f(a, b):\n    x = P(1)\n    return x == P(1), x == x\n",
  "itertools.chain": "import itertools\ndef f(a, b):\n    return list(itertools.chain(a, b))\n",
  "chain.from_iterable": "import itertools\ndef f(a, b):\n    return list(itertools.chain.from_iterable([a, b]))\n",
  "enumerate start": "def f(a, b):\n    return [(i, x) for i, x in enumerate(a, start=1)]\n",
